@@ -220,6 +220,8 @@ def r01_5(ctx, fx):
                 other = [n for n, l in fn.succs(sw[0]) if l not in okl]
                 if d0 and consts and trues and okl and not any(n in fn.reach(other) for n in trues) and not any(n in fn.reach([fn.entry], avoid=[sw[0]]) for n in trues):
                     ok = True
+                    if direct and any(v.dest and sw[1][0] in (fn.copies_of(v.dest[0]) | {v.dest[0]}) for v in direct):
+                        ok2 = True      # `match verify_strict(..) { Ok(()) => true, Err(_) => false }`
         ctx.ob("R01.5", "ed25519::PublicKey::verify/verdict-is-dalek-verify(msg,sig).is_ok()", ok and ok2, site=fn.site(fn.entry), cfg=fx.cfg, detail=str(sorted(rs)))
 
 
